@@ -200,6 +200,10 @@ def main():
         args = sys.argv[5:]
         jobs = int(args[args.index("--jobs") + 1]) if "--jobs" in args else 16
         only = [int(x) for x in args[args.index("--only") + 1].split(",")] if "--only" in args else None
+        if "--sample" in args:      # a deterministic sample of N mutants
+            import random as _r
+            n_all = len(enumerate_mutants(src, names))
+            only = sorted(_r.Random(int(os.environ.get("MUT_SEED", "1"))).sample(range(n_all), min(n_all, int(args[args.index("--sample") + 1]))))
         outp = args[args.index("--out") + 1] if "--out" in args else "/tmp/mut_report.json"
         muts = enumerate_mutants(src, names)
         modname = relfile[:-3].replace("/", ".")
